@@ -379,7 +379,86 @@ theorem evaluator_bindings_current (objs : List Nat) (ops : List Op)
   have h := gen (initEval objs) objs (by simp [initEval, createNnps]) (by simp [initEval, createNnps])
   simpa [interpolateReads] using h
 
+/-! ## staging: the source values the equations read are those of the requested property -/
+
+/-- An array that does not own the requested property contributes the value 0
+for each of its particles (`data = 0.0` broadcast by `temp_prop[:] = data`);
+an array that owns it contributes its values. -/
+theorem missing_property_staged_as_zeros {β : Type} [OfNat β 0] (a : ArrData β) (prop : String) :
+    (a.props.lookup prop = none →
+      (stagedValues a prop).length = a.n ∧ ∀ v ∈ stagedValues a prop, v = 0) ∧
+    (∀ vals, a.props.lookup prop = some vals → stagedValues a prop = vals) := by
+  constructor
+  · intro h
+    simp only [stagedValues, h]
+    exact ⟨List.length_replicate, fun v hv => (List.mem_replicate.mp hv).2⟩
+  · intro vals h
+    simp only [stagedValues, h]
+
+/-- After ANY history following construction — rebindings, updates, in-place
+changes AND earlier `interpolate` calls of any properties, starting from ANY
+contents of the arrays' `temp_prop` (arrays may arrive with a used `temp_prop`) —
+`interpolate(prop)` makes the evaluator read, for every source array it is bound
+to, exactly the staged values of `prop`: the array's own values, or zeros when it
+lacks the property. -/
+theorem interpolate_stages_requested_property {β : Type} [OfNat β 0]
+    (arrays : List Nat) (p : Nat) (temp0 : Temp β)
+    (hist : List (HOp β)) (env : Nat → ArrData β) (prop : String)
+    (hops : ∀ op ∈ bindOps hist, op.isInterp = true) :
+    let h := hrun ⟨init arrays p, temp0⟩ (hist ++ [HOp.interp env prop])
+    (interpolateReads h.s).evaluated =
+      lastArrays arrays (bindOps hist) ++ [lastPts p (bindOps hist)] ∧
+    ∀ o ∈ lastArrays arrays (bindOps hist), h.temp o = stagedValues (env o) prop := by
+  intro h
+  have hb := bindings_current arrays p (bindOps hist) hops
+  have hs : h.s = run (init arrays p) (bindOps hist) := by
+    show (hrun ⟨init arrays p, temp0⟩ (hist ++ [HOp.interp env prop])).s = _
+    rw [hrun_append_singleton]
+    show (hrun ⟨init arrays p, temp0⟩ hist).s = _
+    rw [hrun_s]
+  refine ⟨by rw [hs]; exact hb.2.2.1, ?_⟩
+  intro o ho
+  show (hrun ⟨init arrays p, temp0⟩ (hist ++ [HOp.interp env prop])).temp o = _
+  rw [hrun_append_singleton]
+  show stage env prop (hrun ⟨init arrays p, temp0⟩ hist).s.arrays _ o = _
+  apply stage_mem
+  rw [hrun_s]
+  have := hb.1
+  simp only [interpolateReads] at this
+  rw [this]; exact ho
+
+/-- **The value interpolated for a property depends only on the currently bound
+arrays and that property, not on what was interpolated before**: two histories
+(different earlier `interpolate` calls, different initial `temp_prop` contents,
+different earlier rebindings) that end with the same bound source arrays stage
+identical source values for `prop`. -/
+theorem interpolate_independent_of_history {β : Type} [OfNat β 0]
+    (arrays1 arrays2 : List Nat) (p1 p2 : Nat) (temp1 temp2 : Temp β)
+    (hist1 hist2 : List (HOp β)) (env : Nat → ArrData β) (prop : String)
+    (h1 : ∀ op ∈ bindOps hist1, op.isInterp = true)
+    (h2 : ∀ op ∈ bindOps hist2, op.isInterp = true)
+    (hsame : lastArrays arrays1 (bindOps hist1) = lastArrays arrays2 (bindOps hist2)) :
+    ∀ o ∈ lastArrays arrays1 (bindOps hist1),
+      (hrun ⟨init arrays1 p1, temp1⟩ (hist1 ++ [HOp.interp env prop])).temp o =
+      (hrun ⟨init arrays2 p2, temp2⟩ (hist2 ++ [HOp.interp env prop])).temp o := by
+  intro o ho
+  rw [(interpolate_stages_requested_property arrays1 p1 temp1 hist1 env prop h1).2 o ho,
+    (interpolate_stages_requested_property arrays2 p2 temp2 hist2 env prop h2).2 o (hsame ▸ ho)]
+
 /-! ## non-vacuity: concrete neighbour lists / histories meeting the hypotheses -/
+
+/-- fluid (object 1: `p`, `T`) and solid (object 2: `p` only, arriving with a used
+`temp_prop`): `interpolate('T')` after `interpolate('p')` stages zeros for the
+solid, not the pressures the previous call left in its `temp_prop` -/
+example :
+    let env : Nat → ArrData ℚ := fun o =>
+      if o = 1 then ⟨2, [("p", [10, 11]), ("T", [300, 301])]⟩ else ⟨3, [("p", [20, 21, 22])]⟩
+    let temp0 : Temp ℚ := fun o => if o = 2 then [7, 7, 7] else []
+    let h1 := hrun ⟨init [1, 2] 3, temp0⟩ [HOp.interp env "p"]
+    let h2 := hrun ⟨init [1, 2] 3, temp0⟩ [HOp.interp env "p", HOp.interp env "T"]
+    h1.temp 2 = [20, 21, 22] ∧ h2.temp 1 = [300, 301] ∧ h2.temp 2 = [0, 0, 0] := by
+  refine ⟨?_, ?_, ?_⟩ <;> decide +kernel
+
 
 /-- three neighbours, one with zero weight and an outlying value: the mean of
 the two contributing values 1 and 3 with weights 1/2, 1/4 is 5/3 ∈ [1, 3] -/
